@@ -200,6 +200,34 @@ def closed_roman_numeral_roots():
                 wantb = bst + {0: "", 1: "#", 2: "##", -1: "-", -2: "--"}[bal]
                 if al == 0 and rn.find_bass_note() != wantb:  # (roots with accidentals are re-parsed from text: name reader, not arithmetic)
                     return False, n, {"input": [k, deg], "what": "bass %r, diatonic arithmetic gives %r" % (rn.find_bass_note(), wantb)}
+    # applied chords (X/Y: chord X of the key on degree Y), the tonicised degree natural or lowered by a flat: the root is the key's tonic
+    # moved by Y's interval (lowered by a semitone for bY), then by X's interval in the local key (minor for a lower-case Y)
+    import re as _re
+    ACC = {0: "", 1: "#", 2: "##", -1: "-", -2: "--"}
+    lower = {"M": "m", "m": "d", "P": "d", "A": "P"}
+    for k in ["C", "G", "F", "D", "a", "e"]:
+        kstep, minor = k[0].upper(), k[0].islower()
+        for sec in ["bVII", "bII", "bVI", "bIII", "V", "IV", "ii", "vi", "iii", "VII", "II"]:
+            sbase = sec.lstrip("b")
+            tabk = sc.Roman2Interval_Min if minor else sc.Roman2Interval_Maj
+            if sbase not in tabk:
+                continue
+            iv = tabk[sbase]
+            lst, lal, _ = S.diatonic_transpose(kstep, 0, 4, iv.number, lower[iv.quality] if sec.startswith("b") else iv.quality, "up")
+            tabl = sc.Roman2Interval_Min if sbase.islower() else sc.Roman2Interval_Maj
+            for prim in ["V6", "V65", "V43", "V2", "IV6", "ii6", "I6", "vi6"]:
+                pbase = _re.match(r"[ivIV]+", prim).group(0)
+                if pbase not in tabl:
+                    continue
+                n += 1
+                rst, ral, _ = S.diatonic_transpose(lst, lal, 4, tabl[pbase].number, tabl[pbase].quality, "up")
+                want = rst + ACC.get(ral, "?")
+                try:
+                    got = sc.RomanNumeral("%s:%s/%s" % (k, prim, sec)).find_root_note()
+                except Exception as e:
+                    return False, n, {"input": [k, prim, sec], "what": "RomanNumeral / find_root_note raised %s: %s" % (type(e).__name__, e)}
+                if got != want:
+                    return False, n, {"input": [k, prim, sec], "what": "root of %s:%s/%s is %r, diatonic arithmetic gives %r (local tonic %s%s)" % (k, prim, sec, got, want, lst, ACC.get(lal, "?"))}
     return True, n, ""
 
 
@@ -263,6 +291,30 @@ def bounded(b):
                 for kind in ("part", "score"):
                     case = {"score": sname, "interval": [num, q, direction], "arg": kind}
                     _one(b, mk, num, q, direction, kind, case)
+    # note classes of the user's own, defined AFTER the library has been at work on other parts: their notes are pitched notes too
+    from partitura.utils.music import transpose
+    from gen import oracles as O
+
+    class LabelledNote(sc.Note):
+        pass
+
+    class LabelledGrace(sc.GraceNote):
+        pass
+    for (num, q, direction, semis) in ((3, "M", "up", 4), (2, "m", "down", -1), (5, "P", "up", 7)):
+        p = sc.Part("P", quarter_duration=4)
+        p.add(sc.TimeSignature(4, 4), 0)
+        p.add(sc.Measure(number=1), 0, 16)
+        objs = [sc.Note("C", 4, id="plain", voice=1), LabelledNote("E", 4, id="own", voice=1), LabelledNote("G", 4, alter=1, id="own_sharp", voice=1), LabelledGrace("grace", "B", 4, id="own_grace", voice=1)]
+        for i, o in enumerate(objs[:3]):
+            p.add(o, 4 * i, 4 * i + 4)
+        p.add(objs[3], 8, 8)
+        case = {"score": "notes of classes defined by the user after earlier calls", "interval": [num, q, direction]}
+        before = {o.id: O.spelled_pitch(o) for o in objs}
+        ok, res = b.guard("transpose/no_exception", case, lambda: transpose(p, sc.Interval(num, q, direction)))
+        if ok:
+            after = {n.id: O.spelled_pitch(n) for n in res.iter_all(sc.Note, include_subclasses=True)}
+            moved = {k_: after.get(k_, None) is not None and after[k_] - before[k_] for k_ in before}
+            b.case("transpose/every_pitched_note_moved_nothing_else", all(v == semis for v in moved.values()), case, "semitones moved per note %r, the interval has %d" % (moved, semis))
 
 
 def _pitched(part):
